@@ -166,9 +166,14 @@ func oracle(c *Case) (facts, error) {
 				if meet != nil && i%2 == 0 {
 					if k := r*(len(c.Work[0])/2+1) + i/2; k < len(meet) {
 						meet[k].Add(1)
-						for spin := 0; spin < 200000 && int(meet[k].Load()) < len(c.Work); spin++ {
-							if spin%64 == 63 {
+						// a short spin, then sleeping waits (at most ~0.2 s): busy
+						// waiting would take the processors from the goroutines
+						// that are waited for when the machine is loaded
+						for spin := 0; spin < 10000 && int(meet[k].Load()) < len(c.Work); spin++ {
+							if spin < 300 {
 								runtime.Gosched()
+							} else {
+								time.Sleep(20 * time.Microsecond)
 							}
 						}
 					}
